@@ -450,6 +450,52 @@ func mxResponses() mxObj {
 	return mxDoc("matrix: responses", paths, comps)
 }
 
+// mxSecurity: one operation per security structure (scheme kind and location, conjunction, alternatives, optional,
+// none, inherited from the document).
+func mxSecurity() mxObj {
+	paths := mxObj{}
+	add := func(name string, sec any) {
+		op := mxObj{"operationId": name, "responses": mxOK(), "parameters": []any{
+			mxObj{"name": "q", "in": "query", "required": true, "schema": mxObj{"type": "string"}},
+			mxObj{"name": "X-Note", "in": "header", "schema": mxObj{"type": "string"}},
+		}}
+		if sec != nil {
+			op["security"] = sec
+		}
+		paths["/"+name] = mxObj{"get": op}
+	}
+	one := func(n string, scopes ...any) []any {
+		if scopes == nil {
+			scopes = []any{}
+		}
+		return []any{mxObj{n: scopes}}
+	}
+	add("sec_header", one("keyHeader"))
+	add("sec_query", one("keyQuery"))
+	add("sec_cookie", one("keyCookie"))
+	add("sec_basic", one("basic"))
+	add("sec_bearer", one("bearer"))
+	add("sec_oauth", one("oauth", "read", "write"))
+	add("sec_and", []any{mxObj{"keyHeader": []any{}, "bearer": []any{}}})
+	add("sec_and_three", []any{mxObj{"keyHeader": []any{}, "keyQuery": []any{}, "keyCookie": []any{}}})
+	add("sec_or", []any{mxObj{"keyHeader": []any{}}, mxObj{"basic": []any{}}})
+	add("sec_and_or", []any{mxObj{"keyHeader": []any{}, "keyQuery": []any{}}, mxObj{"bearer": []any{}}})
+	add("sec_or_shared", []any{mxObj{"keyHeader": []any{}, "basic": []any{}}, mxObj{"keyHeader": []any{}, "bearer": []any{}}})
+	add("sec_optional", []any{mxObj{}, mxObj{"bearer": []any{}}})
+	add("sec_none", []any{})
+	add("sec_inherited", nil)
+	d := mxDoc("matrix: security", paths, mxObj{"securitySchemes": mxObj{
+		"keyHeader": mxObj{"type": "apiKey", "in": "header", "name": "X-Api-Key"},
+		"keyQuery":  mxObj{"type": "apiKey", "in": "query", "name": "api_key"},
+		"keyCookie": mxObj{"type": "apiKey", "in": "cookie", "name": "api_session"},
+		"basic":     mxObj{"type": "http", "scheme": "basic"},
+		"bearer":    mxObj{"type": "http", "scheme": "bearer"},
+		"oauth":     mxObj{"type": "oauth2", "flows": mxObj{"clientCredentials": mxObj{"tokenUrl": "https://auth.sim.test/token", "scopes": mxObj{"read": "read things", "write": "write things"}}}},
+	}})
+	d["security"] = []any{mxObj{"bearer": []any{}}}
+	return d
+}
+
 // matrixSpecs writes the matrix documents into the scratch directory and returns their paths.
 func matrixSpecs(s *build.Scratch, all bool) []string {
 	_ = all
@@ -462,7 +508,7 @@ func WriteMatrix(dir string) []string {
 	docs := []struct {
 		name string
 		doc  mxObj
-	}{{"mx_params", mxParams()}, {"mx_bodies", mxBodies()}, {"mx_responses", mxResponses()}}
+	}{{"mx_params", mxParams()}, {"mx_bodies", mxBodies()}, {"mx_responses", mxResponses()}, {"mx_security", mxSecurity()}}
 	var out []string
 	for _, d := range docs {
 		b, err := json.MarshalIndent(d.doc, "", " ")
